@@ -59,12 +59,12 @@ type driveOut struct {
 	Deliveries [][2]int `json:"d"` // (index into Pkgs, consumed n)
 	Err        string   `json:"err,omitempty"`
 	Panic      string   `json:"panic,omitempty"`
-	Spin       bool     `json:"spin,omitempty"`   // pkg != nil with n == 0
-	Over       bool     `json:"over,omitempty"`   // n > len(buf)
-	Leftover   int      `json:"left"`             // bytes still buffered at the end
-	Reads      int      `json:"reads"`            // calls of Read
-	NeedMore   int      `json:"need_more"`        // calls that answered (nil, _, nil)
-	AtChunk    int      `json:"at_chunk"`         // chunk index at which err/panic/spin happened
+	Spin       bool     `json:"spin,omitempty"` // pkg != nil with n == 0
+	Over       bool     `json:"over,omitempty"` // n > len(buf)
+	Leftover   int      `json:"left"`           // bytes still buffered at the end
+	Reads      int      `json:"reads"`          // calls of Read
+	NeedMore   int      `json:"need_more"`      // calls that answered (nil, _, nil)
+	AtChunk    int      `json:"at_chunk"`       // chunk index at which err/panic/spin happened
 	NeedMoreN  []int    `json:"-"`
 }
 
